@@ -915,8 +915,13 @@ def gen_cond(rng, names, values):
     pool = [v for v in values.get(name, []) if v is not None]
     if pool and rng.random() < 0.7:
         v = rng.choice(pool)
-        if rng.random() < 0.3:
+        q = rng.random()
+        if q < 0.3:
             v = v + rng.choice([-0.5, 0.5, -1, 1, 0.25])
+        elif q < 0.45:
+            # near miss: a literal that differs from a stored value only at the 1e-6 relative / 1e-9 absolute level
+            # (round 6, C15 patch 1: `==` evaluated with np.isclose instead of exact equality)
+            v = v * (1 + rng.choice([-2e-6, 2e-6, 1e-9])) if v != 0 else rng.choice([1e-9, -1e-9])
     else:
         v = rng.choice([-1.5, 0, 1, 2.5, 3, 10, -2, 0.125, 100, 1e3, -1e-2])
     lit = lit_forms(rng, v)
@@ -939,6 +944,15 @@ class Random(_Base):
         ph = REG * 4 + [0.1, 3.0]
         irregular = [0.1, 3.1, 5.0, 4.0, 6.0, 0.2, 3.0, 6.1, 0.1, 3.1, 0.2, 3.1, 6.2, 0.3]
         return [
+            # round 6, C15 patch 1: `==` must mean exact equality - 1.000001 is not 1, 1e-9 is not 0 (np.isclose said it was)
+            {'phase': ph, 'step': None, 'edge': None, 'probe': ['m==1'],
+             'ops': [{'op': 'add', 'name': 'm', 'vals': [1.000001, 1.0, 1e-09, 0.0, 0.9999999]},
+                     {'op': 'match', 'conds': ['m==0']},
+                     {'op': 'pick', 'conds': ['m==1']},
+                     {'op': 'chain_timings'},
+                     {'op': 'export', 'mode': 'subset'},
+                     {'op': 'export', 'mode': 'conds', 'conds': ['m==1.0e0']},
+                     {'op': 'pick', 'conds': ['m!=1', 'm!=0']}]},
             # seeded change C15-1: picking the SAME conditions again after a metric they name was overwritten must
             # re-evaluate them (a cached 'selection already in place' shortcut leaves subset/chains/exports stale)
             {'phase': ph, 'step': None, 'edge': None, 'probe': ['m>2'],
